@@ -141,6 +141,12 @@ class NpProxy:
             return SymArray(_obj(x))
         return _np.asarray(x, *a, **kw)
 
+    def isscalar(self, x):
+        # symbolic scalars stand for Python floats / NumPy scalars (np.isscalar is True for both); 0-d arrays are not scalars
+        if isinstance(x, (SymFloat, SymInt, SymBool)):
+            return True
+        return _np.isscalar(x)
+
     def _fresh(self, name, fill, shape, dtype, kw):
         # a float buffer allocated while a body is being explored may later receive symbolic values (out=, masked stores): it
         # is born as an array of symbolic constants; integer/boolean buffers and anything outside an exploration stay NumPy's
